@@ -432,6 +432,9 @@ def obs_c16(c: Ctx, *, styles=None, rotate=0):
     def rendering(nd):
         return f"{marker}#{c.nid(nd)}{marker}"
 
+    def rendering_blanks(nd):   # a rendering that ends with white space must be emitted as it is
+        return f"{marker}#{c.nid(nd)}{marker}  "
+
     # string repr: usable when node names are unique (shape states: data value = pre-order position)
     name_ids = {}
     for i in range(1, n + 1):
@@ -439,6 +442,7 @@ def obs_c16(c: Ctx, *, styles=None, rotate=0):
     rendering_str = "\u0001{node.name}\u0001" if all(len(v) == 1 for v in name_ids.values()) else rendering
 
     lenonly_holder = {"v": False}
+    tail_expected = {"v": ""}
 
     def parse(text, join, style_tuple, expect_title):
         lines = text.split(join) if text else []
@@ -450,6 +454,9 @@ def obs_c16(c: Ctx, *, styles=None, rotate=0):
         for ln in lines:
             pos = ln.index(marker)
             tok = ln[pos + 1:ln.index(marker, pos + 1)]
+            tail = ln[ln.index(marker, pos + 1) + 1:]
+            if tail != tail_expected["v"]:
+                raise TypeError("the line is not prefix + rendering")
             ids.append(int(tok[1:]) if tok.startswith("#") else name_ids.get(tok, [-2])[0])
             px = ln[:pos]
             if style_tuple is None:
@@ -477,13 +484,15 @@ def obs_c16(c: Ctx, *, styles=None, rotate=0):
         compact = style_tuple is not None and len(style_tuple) == 6
         for title_mode in ("default", "false", "text"):
             join = ["\n", " ;; ", "\r\n"][k % 3]
-            rp = rendering if k % 2 == 0 else rendering_str
+            rp = [rendering, rendering_str, rendering_blanks][k % 3]
+            tail_expected["v"] = "  " if rp is rendering_blanks else ""
             k += 1
             title_arg = {"default": None, "false": False, "text": "My Title"}[title_mode]
             exp_title = {"default": "default" if sname != "list" else "none", "false": "none", "text": "text"}[title_mode]
             lstrip = 0 if exp_title != "none" else 1
 
             def fn(style_arg=style_arg, title_arg=title_arg, join=join, rp=rp):
+                tail_expected["v"] = "  " if rp is rendering_blanks else ""
                 return tree.format(repr=rp, style=style_arg, title=title_arg, join=join)
 
             a = {"start": 0, "self": exp_title != "none", "lstrip": lstrip, "compact": compact, "list": sname == "list",
@@ -497,8 +506,12 @@ def obs_c16(c: Ctx, *, styles=None, rotate=0):
                 join = ["\n", " ;; "][k % 2]
                 k += 1
 
-                def fn(nd=nd, style_arg=style_arg, self_=self_, join=join):
-                    return nd.format(repr=rendering, style=style_arg, add_self=self_, join=join)
+                rp2 = rendering_blanks if k % 3 == 0 else rendering
+                tail2 = "  " if rp2 is rendering_blanks else ""
+
+                def fn(nd=nd, style_arg=style_arg, self_=self_, join=join, rp2=rp2, tail2=tail2):
+                    tail_expected["v"] = tail2
+                    return nd.format(repr=rp2, style=style_arg, add_self=self_, join=join)
 
                 a = {"start": i, "self": self_, "lstrip": depth + (0 if self_ else 1), "compact": compact,
                      "list": sname == "list", "style": sname, "title": "none", "join": join, "lenonly": lenonly}
@@ -720,10 +733,19 @@ def obs_c17(c: Ctx):
             for self_ in (True, False):
                 a = {"start": s, "self": self_, "unique": unique, "fmt": "dot", "dup_defs_ok": s != 0 and self_ and unique}
 
-                def run_dot(s=s, unique=unique, self_=self_):
+                mstyle = (s + int(unique) + int(self_)) % 3    # user mappers: none / in-place / returning a new dict
+
+                def run_dot(s=s, unique=unique, self_=self_, mstyle=mstyle):
+                    kw = {}
+                    if mstyle == 1:
+                        kw = {"node_mapper": lambda nd, data: data.update(shape="box"),
+                              "edge_mapper": lambda nd, data: data.update(color="red")}
+                    elif mstyle == 2:
+                        kw = {"node_mapper": lambda nd, data: dict(data, shape="box"),
+                              "edge_mapper": lambda nd, data: {"color": "red"}}
                     if s == 0:
-                        return list(tree.to_dot(add_root=self_, unique_nodes=unique))
-                    return list(c.b.nodes[s].to_dot(add_self=self_, unique_nodes=unique))
+                        return list(tree.to_dot(add_root=self_, unique_nodes=unique, **kw))
+                    return list(c.b.nodes[s].to_dot(add_self=self_, unique_nodes=unique, **kw))
 
                 def norm_dot(lines, unique=unique, s=s, self_=self_):
                     nodes, edges = _dot_parse(lines)
